@@ -1,5 +1,6 @@
 SPECIFICATION TraceSpec
-CONSTANTS Nodes <- TNodes
+CONSTANTS ReloadNodes <- TNodes
+          Nodes <- TNodes
           AddrOf <- TAddrOf
           AmRelay <- TAmRelay
 INVARIANTS OnlyRelaysForward RecordsOnLiveTunnels NotToSelf IndexesUnique IndexesOwned
